@@ -59,11 +59,11 @@ def ref_d2(F, G, sigma):
 
 def gen_pair(rng, tier):
     top = 25 if tier == "quick" else 40
-    if rng.random() < 0.04:
+    if rng.random() < 0.12:
         top = 90       # a few larger diagrams: size-dependent behaviour (chunking, truncation) must not hide
     big = rng.random() < (0.012 if tier == "quick" else 0.02)
     style = str(rng.choice(["reorder", "jitter", "indep", "disjoint", "empty", "neardiag", "grid", "repaired"]))
-    scale = float(rng.choice([1e-2, 0.1, 1, 1, 1, 10, 1e2]))
+    scale = float(rng.choice([1e-2, 0.1, 1, 1, 1, 10, 1e2, 1e-9, 1e-6, 1e6]))
     m = int(rng.integers(1, top + 1))
     if big:         # sizes around and above 128 / 256 (block sizes of vectorised implementations)
         m = int(rng.choice([127, 128, 129, 130, 200, 257]))
@@ -110,6 +110,8 @@ def run_case(ctx, k, rng):
         ctx.mark_nontrivial(F, G, sigma)
         ctx.note("nontrivial:" + style)
 
+    F0, G0 = F.copy(), G.copy()
+
     def d(P, Q, s=sigma):
         ctx.ran()
         return heat(P, Q, s)
@@ -127,10 +129,20 @@ def run_case(ctx, k, rng):
                      got=repr(v), fp_events=fs.events[:5]):
         return
     v = float(v)
-    r2, tol2 = ref_d2(F, G, sigma)
+    r2, tol2 = ref_d2(F0, G0, sigma)        # reference from pristine copies: F and G themselves are reused in the calls below
     ctx.check("d^2 == k(F,F)+k(G,G)-2k(F,G)", abs(v * v - r2) <= tol2, got_sq=v * v, ref_sq=r2, tol2=tol2)
     if style == "reorder":
         ctx.check("reorder=>0", v * v <= tol2, got=v, tol2=tol2)
+    if rng.random() < 0.25 and max(len(F), len(G)) <= 100:
+        # a bandwidth sweep over a fixed pair: every value must be the one its own sigma defines
+        s2 = sigma * float(rng.choice([0.1, 0.5, 2.0, 6.25, 100.0]))
+        try:
+            v2s = d(F, G, s2)
+            r2s, t2s = ref_d2(F0, G0, s2)
+            ctx.check("same pair under another sigma: d^2 == k(F,F)+k(G,G)-2k(F,G) for that sigma", fin(v2s) and abs(float(v2s) ** 2 - r2s) <= t2s,
+                      got_sq=float(v2s) ** 2, ref_sq=r2s, sigma_first=sigma, sigma_now=s2, sizes=[len(F), len(G)])
+        except Exception as e:
+            ctx.exception("same pair under another sigma: d^2 == k(F,F)+k(G,G)-2k(F,G) for that sigma", e)
         if len(F) <= 100:
             vs = d(F, F)                             # the very same object on both sides
             _, tss = ref_d2(F, F, sigma)
@@ -155,6 +167,17 @@ def run_case(ctx, k, rng):
         except Exception as e:
             ctx.exception("integer / list forms agree with float arrays in both argument positions", e)
         ctx.set_payload({"dgm1": F, "dgm2": G, "sigma": sigma})
+    if len(F) and len(G) and rng.random() < 0.12:
+        PF, PG = F0.copy(), G0.copy()
+        try:
+            first = d(PF, PG)
+            how = vforms.update_in_place(rng, PF if rng.random() < 0.7 else PG, scale)
+            v_now = d(PF, PG)
+            r2u, t2u = ref_d2(PF.copy(), PG.copy(), sigma)
+            ctx.check("after an in-place update the value is that of the current contents", fin(v_now) and abs(float(v_now) ** 2 - r2u) <= t2u,
+                      got=v_now, ref_sq_on_current_values=r2u, before_update=first, update=how)
+        except Exception as e:
+            ctx.exception("after an in-place update the value is that of the current contents", e)
     if rng.random() < 0.06:
         ia, fa_, da = vforms.near_limit_int_diagram(rng, int(rng.integers(1, 6)), positive_length=False)
         ib, fb_, db = vforms.near_limit_int_diagram(rng, int(rng.integers(1, 6)), dtypes=(np.dtype(da).type,), positive_length=False)
